@@ -1,6 +1,18 @@
 package command
 
-import "github.com/spf13/cobra"
+import (
+	"context"
+	"time"
+
+	"github.com/spf13/cobra"
+	"github.com/v-byte-cpu/sx/command/log"
+	"github.com/v-byte-cpu/sx/pkg/scan"
+)
 
 // SimRootCmd exposes the root command to the simulation harness (added by overlay only).
 func SimRootCmd(version string) *cobra.Command { return newRootCmd(version) }
+
+// SimStartScanEngine exposes startScanEngine (logger goroutine, error drain, exit delay).
+func SimStartScanEngine(ctx context.Context, engine scan.EngineResulter, logger log.Logger, exitDelay time.Duration) error {
+	return startScanEngine(ctx, engine, newEngineConfig(withLogger(logger), withScanRange(&scan.Range{}), withExitDelay(exitDelay)))
+}
